@@ -751,8 +751,12 @@ def replay(run, rp):
     import random as _random
     try:
         pre = _random.Random("c01-replay-history")
-        for _ in range(2):
-            failing(gen_case(pre))
+        seen = set()
+        for _ in range(60):          # at least two other files of each dimension, read through the same path first
+            h = gen_case(pre)
+            if sum(1 for x in seen if x[0] == h["nd"]) < 2:
+                seen.add((h["nd"], len(seen)))
+                failing(h)
         if "case" in rp:
             return failing(rp["case"]) is not None
         return any(failing(c) is not None for c in rp.get("cases", []))
